@@ -374,6 +374,7 @@ func c07R3(c *Ctx) {
 	info := fn.Info()
 	sites := p.CallsTo(nil, setDelete)
 	c.WhoMay("C07.R3", "call Set.Delete", groupCalls(sites), map[string]string{"pkg/eni.Local.factoryDisposeWorker": "after the cloud confirmed the unassignment"})
+	c.WhoMayCallDeep("C07.R3", "call Set.Delete", []*types.Func{setDelete}, map[string]string{"pkg/eni.Local.factoryDisposeWorker": "after the cloud confirmed the unassignment"})
 	c.Floor("C07.R3", "Set.Delete call sites", 2, len(sites))
 	q := NewPathQuery(p, fn, nil)
 	for _, cs := range sites {
